@@ -38,7 +38,7 @@ fn compile(files: &[String]) -> Result<(slicec::compilation_state::CompilationSt
 }
 
 pub fn run() -> i32 {
-    let mut rep = Report::new("scopes", "3 nested module levels x `T` defined at every subset of them x a referencing field at each level x 11 spellings x 2 file orders; the same through an alias with attributes and through chains of two aliases in different modules; wrong-kind targets; retrieval by scoped name");
+    let mut rep = Report::new("scopes", "3 nested module levels x `T` defined at every subset of them x a referencing field at each level x 11 spellings x 2 file orders; the same through an alias with attributes and through chains of two aliases in different modules; wrong-kind targets; members named like their type (3 programs); a module with the scoped name of a definition is rejected (3 programs x 2 orders); chains of three attributed aliases used at every link in 6 field orders x 3 declaration orders x before/after (attributes carried per use); retrieval by scoped name");
     let spellings = ["T", "A::T", "B::T", "C::T", "A::B::T", "B::C::T", "A::B::C::T", "::A::T", "::A::B::T", "::T", "::B::T"];
     for present in 0..8u32 {
         let defined: Vec<String> = (0..3).filter(|l| present & (1 << l) != 0).map(|l| format!("{}::T", LEVELS[l])).collect();
@@ -157,6 +157,91 @@ pub fn run() -> i32 {
                             Ok(fld) => {
                                 let got = match fld.data_type().concrete_type() { Types::Struct(_) => "Struct", Types::Enum(_) => "Enum", Types::CustomType(_) => "CustomType", Types::Primitive(_) => "Primitive", Types::Sequence(_) => "Sequence", Types::Dictionary(_) => "Dictionary", Types::ResultType(_) => "ResultType" };
                                 if got != want { rep.counterexample(&files[0], &format!("Holder::{f} bound to a {want} (the alias's final target)"), got); }
+                            }
+                        }
+                    }
+                }
+            }
+        }
+    }
+    // ---- the search starts at the referencing file's MODULE -- not inside the definition that contains the reference: a member
+    //      named like its type, or a module named like the enclosing definition, changes nothing
+    {
+        let cases: Vec<(&str, Vec<&str>, Vec<(&str, &str)>)> = vec![
+            // (name, files, [(scoped name of a field / parameter, the struct it must be bound to)])
+            ("a field named like its type", vec!["module M\nstruct Shape {}\nstruct Drawing { Shape: Shape, other: Shape }\n"], vec![("F M::Drawing::Shape", "M::Shape"), ("F M::Drawing::other", "M::Shape")]),
+            ("an enumerator named like the type of its field", vec!["module M\nstruct Circle {}\nenum Sh { Circle(c: Circle, Circle: Circle), Other(Sh: Circle) }\n"], vec![("F M::Sh::Circle::c", "M::Circle"), ("F M::Sh::Circle::Circle", "M::Circle"), ("F M::Sh::Other::Sh", "M::Circle")]),
+            ("a parameter / return member / operation named like a type", vec!["module M\nstruct Shape {}\ninterface I {\n    op(Shape: Shape) -> (r: Shape, I: Shape)\n    Shape(x: Shape)\n}\n"], vec![("P M::I::op::Shape", "M::Shape"), ("P M::I::op::r", "M::Shape"), ("P M::I::op::I", "M::Shape"), ("P M::I::Shape::x", "M::Shape")]),
+        ];
+        for (name, files, wants) in cases {
+            rep.case(true, || name.to_owned());
+            let fs: Vec<String> = files.iter().map(|x| x.to_string()).collect();
+            match compile(&fs) {
+                Err(m) => rep.counterexample(name, "an AST", &m),
+                Ok((state, errors)) => {
+                    if errors > 0 { rep.counterexample(&format!("{name}: {files:?}"), "accepted: every reference designates a struct of the module", "rejected with an error"); continue; }
+                    for (who, want) in wants {
+                        let got = if let Some(n) = who.strip_prefix("F ") { state.ast.find_element::<Field>(n).ok().map(|f| match f.data_type().concrete_type() { Types::Struct(x) => x.parser_scoped_identifier(), _ => "not a struct".to_owned() }) }
+                                  else { state.ast.find_element::<Parameter>(&who[2..]).ok().map(|f| match f.data_type().concrete_type() { Types::Struct(x) => x.parser_scoped_identifier(), _ => "not a struct".to_owned() }) };
+                        if got.as_deref() != Some(want) { rep.counterexample(&format!("{name}: {files:?}"), &format!("{who} bound to {want}"), &format!("{got:?}")); }
+                    }
+                }
+            }
+        }
+        // a module and a definition cannot have the same scoped name (only one of them could be retrieved by it): rejected, in
+        // both file orders (until the fix recorded in known_findings.txt the later one silently replaced the earlier in the lookup table)
+        for (name, files) in [
+            ("a module named like a struct of the enclosing module", vec!["module M\nstruct T {}\nstruct S { t: T }\n", "module M::S\nstruct T {}\n"]),
+            ("a module named like an interface of the enclosing module", vec!["module M\ninterface I { a() }\ninterface J : I {}\n", "module M::J\ninterface I { b() }\n"]),
+            ("a module named like an enum / a custom type / an alias", vec!["module M\nenum E { A }\ncustom C\ntypealias A = bool\n", "module M::E\n", "module M::C\n", "module M::A\n"]),
+        ] {
+            for order in 0..2 {
+                let mut fs: Vec<String> = files.iter().map(|x| x.to_string()).collect();
+                if order == 1 { fs.reverse(); }
+                let label = format!("{name}: {fs:?}");
+                rep.case(true, || label.clone());
+                match compile(&fs) {
+                    Err(m) => rep.counterexample(&label, "a verdict", &m),
+                    Ok((_, errors)) => if errors == 0 { rep.counterexample(&label, "an error: two things with one scoped name", "accepted"); },
+                }
+            }
+        }
+        // ... while a module that only SHARES A PREFIX with a definition's name, or is nested deeper, is fine
+        {
+            let fs = vec!["module M\nstruct S { t: T }\nstruct T {}\n".to_owned(), "module M::Sx\nstruct T {}\n".to_owned(), "module N::S\nstruct T {}\n".to_owned()];
+            rep.case(true, || "modules that share only a prefix with a definition".to_owned());
+            match compile(&fs) {
+                Err(m) => rep.counterexample("modules that share only a prefix", "an AST", &m),
+                Ok((state, errors)) => {
+                    let got = state.ast.find_element::<Field>("M::S::t").ok().map(|f| match f.data_type().concrete_type() { Types::Struct(x) => x.parser_scoped_identifier(), _ => "not a struct".to_owned() });
+                    if errors > 0 || got.as_deref() != Some("M::T") { rep.counterexample(&format!("{fs:?}"), "accepted, M::S::t bound to M::T", &format!("errors={errors} {got:?}")); }
+                }
+            }
+        }
+    }
+    // ---- alias chains with attributes at every link, used BEFORE they are defined and at every link: each use carries exactly the
+    //      attributes written on the alias types it goes through (outermost first), whatever was resolved before it
+    {
+        let decls = ["typealias Outer = [x::outer] Mid\n", "typealias Mid = [x::mid] Inner\n", "typealias Inner = [x::inner] Sequence<int32>\n"];
+        let uses = [("o", "Outer", vec!["x::outer", "x::mid", "x::inner"]), ("m", "Mid", vec!["x::mid", "x::inner"]), ("i", "Inner", vec!["x::inner"]), ("w", "[x::written] Outer", vec!["x::written", "x::outer", "x::mid", "x::inner"])];
+        let orders: [[usize; 4]; 6] = [[0, 1, 2, 3], [3, 2, 1, 0], [1, 0, 3, 2], [2, 0, 1, 3], [0, 2, 1, 3], [3, 0, 2, 1]];
+        for uo in orders {
+            for (di, dorder) in [[0usize, 1, 2], [2, 1, 0], [1, 2, 0]].iter().enumerate() {
+                for users_first in [true, false] {
+                    let fields: Vec<String> = uo.iter().map(|k| format!("{}: {}", uses[*k].0, uses[*k].1)).collect();
+                    let user = format!("struct U {{ {} }}\n", fields.join(", "));
+                    let ds: String = dorder.iter().map(|k| decls[*k]).collect();
+                    let text = if users_first { format!("module M\n{user}{ds}") } else { format!("module M\n{ds}{user}") };
+                    let label = format!("alias chain attributes: fields {uo:?} declarations #{di} users_first={users_first}\n{text}");
+                    rep.case(true, || label.clone());
+                    match compile(&[text.clone()]) {
+                        Err(m) => rep.counterexample(&label, "an AST", &m),
+                        Ok((state, errors)) => {
+                            if errors > 0 { rep.counterexample(&label, "accepted", "rejected with an error"); continue; }
+                            for (f, _, want) in &uses {
+                                let got: Option<Vec<String>> = state.ast.find_element::<Field>(&format!("M::U::{f}")).ok().map(|fl| fl.data_type().attributes().iter().map(|a| a.kind.directive().to_owned()).collect());
+                                let want: Vec<String> = want.iter().map(|x| x.to_string()).collect();
+                                if got.as_ref() != Some(&want) { rep.counterexample(&label, &format!("U::{f}'s type carries {want:?}"), &format!("{got:?}")); }
                             }
                         }
                     }
